@@ -3,7 +3,8 @@
     Models: Model/{Index,HashMap,EdgeIndex,Quartet}.v. *)
 From Coq Require Import String NArith ZArith QArith Bool Arith List Permutation Sorted.
 From GT Require Import Base.UTree Spec.Obs Model.Reroot Model.Index Model.HashMap Model.EdgeIndex Model.Quartet
-     Proofs.IndexBase Proofs.IndexTree Proofs.IndexSplit Proofs.HashMap Proofs.EdgeIndex Proofs.Quartet.
+     Proofs.IndexBase Proofs.IndexTree Proofs.IndexSplit Proofs.HashMap Proofs.EdgeIndex Proofs.Quartet
+     Proofs.Unroot Proofs.IndexEdit.
 Import ListNotations.
 Local Close Scope Q_scope.
 Local Open Scope string_scope.
@@ -102,10 +103,66 @@ Theorem same_bipartition_iff : forall t1 t2 ec1 r1 ec2 r2,
 Proof. exact Proofs.IndexSplit.same_bipartition_iff. Qed.
 Print Assumptions same_bipartition_iff.
 
+(** Edge.FindEdge on initialized indexes never fails, and finds a branch exactly when the other
+    tree has a branch of the same kind (tip / internal) with the same bipartition *)
+Theorem find_edge_spec : forall t1 t2 ec1 r1,
+    good t1 -> good t2 -> Permutation (leaves t1) (leaves t2) -> branch_row t1 ec1 r1 ->
+    exists b, find_edge r1 (rows t2) = Ok b /\
+              (b = true <-> exists ec2 r2, branch_row t2 ec2 r2 /\ r_tip r2 = r_tip r1 /\
+                                           same_split (leaves t1) (leaves (snd ec1)) (leaves (snd ec2))).
+Proof. exact Proofs.IndexEdit.find_edge_spec. Qed.
+Print Assumptions find_edge_spec.
+
+(** ** ranks are those of the specification's sort *)
+Theorem sort_names_ssort : forall l, sort_names l = ssort l.
+Proof. exact Proofs.IndexEdit.sort_names_ssort. Qed.
+Print Assumptions sort_names_ssort.
+
+Theorem sorted_tip_names_ssort : forall t, wf t = true -> 2 <= degree t -> sorted_tip_names t = ssort (leaves t).
+Proof. exact Proofs.IndexEdit.sorted_tip_names_ssort. Qed.
+Print Assumptions sorted_tip_names_ssort.
+
+(** ** after an edit
+    Whatever the operation: if it yields a well-formed tree on the same tips, the indexes
+    recomputed on the result keep the same ranks, describe the new tree, and its branches
+    compare and hash consistently with those of the old tree. *)
+Theorem after_edit : forall t t',
+    good t -> good t' -> Permutation (leaves t') (leaves t) ->
+    sorted_tip_names t' = sorted_tip_names t /\
+    index_tables t' = Ok (mkTables (sorted_tip_names t)
+                                   (map (fun n => index_of n (sorted_tip_names t)) (tip_names t'))
+                                   (rows t')) /\
+    Forall2 (row_describes (sorted_tip_names t) t') (edges t') (rows t') /\
+    (forall ec r ec' r', branch_row t ec r -> branch_row t' ec' r' ->
+       (same_bipartition r r' = true <-> same_split (leaves t) (leaves (snd ec)) (leaves (snd ec'))) /\
+       (same_split (leaves t) (leaves (snd ec)) (leaves (snd ec')) -> hash_code r = hash_code r')).
+Proof. exact Proofs.IndexEdit.after_edit. Qed.
+Print Assumptions after_edit.
+
+(** Reroot, RotateInternalNodes, SortNeighborsByTips, UnRoot (Model/Reroot.v) yield such trees *)
+Theorem reroot_good : forall t i t', good t -> reroot t i = Ok t' -> good t' /\ Permutation (leaves t') (leaves t).
+Proof. exact Proofs.IndexEdit.reroot_good. Qed.
+Print Assumptions reroot_good.
+
+Theorem rotate_good : forall t cs, good t ->
+    good (fst (rotate_all t cs)) /\ Permutation (leaves (fst (rotate_all t cs))) (leaves t).
+Proof. exact Proofs.IndexEdit.rotate_good. Qed.
+Print Assumptions rotate_good.
+
+Theorem sort_good : forall t, good t ->
+    good (sort_by_tips t) /\ Permutation (leaves (sort_by_tips t)) (leaves t).
+Proof. exact Proofs.IndexEdit.sort_good. Qed.
+Print Assumptions sort_good.
+
+Theorem unroot_good : forall t, good t -> rooted t = true -> root_has_inner_child t = true ->
+    good (unroot t) /\ Permutation (leaves (unroot t)) (leaves t).
+Proof. exact Proofs.IndexEdit.unroot_good. Qed.
+Print Assumptions unroot_good.
+
 (** ** the hash map *)
 
 (** any key type whose HashEquals is symmetric, transitive and compatible with HashCode on the keys
-    the client uses ([ok]); any initial capacity >= 1; any resize policy [need]; any history:
+    the client uses ([ok]); any uint64 initial capacity (NewHashMap turns 0 into 1); any resize policy [need]; any history:
     every returned value, the final key/value content and the counter [total] are those of a
     plain association list.  ([run] returns [None] when the Go code would panic.) *)
 Theorem hashmap_refines :
@@ -114,7 +171,7 @@ Theorem hashmap_refines :
     (forall a b c, ok a -> ok b -> ok c -> eqb a b = true -> eqb b c = true -> eqb a c = true) ->
     (forall a b, ok a -> ok b -> eqb a b = true -> hash a = hash b) ->
     forall (cap : N) (ops : list (op K V)) (rs : list (ores V)) (mf : hmap K V),
-      (1 <= cap < W64)%N ->
+      (cap < W64)%N ->
       ops_ok K V ok ops ->
       run K V hash eqb need (new_hashmap K V cap) ops = Some (rs, mf) ->
       rs = fst (run_assoc K V eqb [] ops) /\
@@ -130,25 +187,22 @@ Theorem hashmap_total :
     (forall a b c, ok a -> ok b -> ok c -> eqb a b = true -> eqb b c = true -> eqb a c = true) ->
     (forall a b, ok a -> ok b -> eqb a b = true -> hash a = hash b) ->
     forall (cap : N) (ops : list (op K V)),
-      (1 <= cap < W64)%N -> ops_ok K V ok ops -> no_overflow need ->
+      (cap < W64)%N -> ops_ok K V ok ops -> no_overflow need ->
       run K V hash eqb need (new_hashmap K V cap) ops <> None.
 Proof. exact Proofs.HashMap.hashmap_total_gen. Qed.
 Print Assumptions hashmap_total.
 
-(** the guard 1 <= cap is necessary: with capacity 0 every operation panics *)
-Theorem hashmap_capacity_zero_refuted :
-  forall K V (hash : K -> N) (eqb : K -> K -> bool) (need : nat -> N -> bool) k v,
-    value K V hash eqb (new_hashmap K V 0) k = None /\
-    put K V hash eqb need (new_hashmap K V 0) k v = None.
+(** capacity 0 behaves as capacity 1 *)
+Theorem hashmap_capacity_zero : forall K V, new_hashmap K V 0 = new_hashmap K V 1.
 Proof. exact Proofs.HashMap.hashmap_capacity_zero. Qed.
-Print Assumptions hashmap_capacity_zero_refuted.
+Print Assumptions hashmap_capacity_zero.
 
 (** ** the split-keyed index *)
 
 (** keys = rows of branches of any well-formed trees on the taxa [L]: PutEdgeValue, AddEdgeCount,
     Value and Edges(min,max) behave like the association list keyed by HashEquals ... *)
 Theorem edgeindex_refines : forall (L : list string) (need : nat -> N -> bool) cap ops rs mf,
-    (1 <= cap < W64)%N -> eiops_ok L ops ->
+    (cap < W64)%N -> eiops_ok L ops ->
     ei_run need (new_edge_index cap) ops = Some (rs, mf) ->
     rs = fst (ei_run_assoc [] ops) /\
     Permutation (key_values ekey einfo_v mf) (snd (ei_run_assoc [] ops)) /\
@@ -160,7 +214,7 @@ Proof. exact Proofs.EdgeIndex.edgeindex_refines_gen. Qed.
 Print Assumptions edgeindex_refines.
 
 Theorem edgeindex_total : forall (L : list string) (need : nat -> N -> bool) cap ops,
-    (1 <= cap < W64)%N -> eiops_ok L ops -> no_overflow need ->
+    (cap < W64)%N -> eiops_ok L ops -> no_overflow need ->
     ei_run need (new_edge_index cap) ops <> None.
 Proof. exact Proofs.EdgeIndex.edgeindex_total_gen. Qed.
 Print Assumptions edgeindex_total.
@@ -175,44 +229,33 @@ Print Assumptions ekey_eqb_same_split.
 
 (** ** quartets *)
 
-(** "HashEquals => same HashCode" is FALSE of Quartet.HashCode as written (the second
-    compare-exchange sorts the wrong way).  Minimal witness (0,1|2,3) / (2,3|0,1). *)
-Theorem quartet_hash_compat_refuted :
-  exists q q', q_hash_equals q q' = true /\ q_hash_code q <> q_hash_code q'.
-Proof. exact Proofs.Quartet.quartet_hash_compat_refuted. Qed.
-Print Assumptions quartet_hash_compat_refuted.
+(** HashEquals (equal or conflicting: same four taxa) => same HashCode, for all quartets *)
+Theorem quartet_hash_compat : forall q q',
+    q_hash_equals q q' = true -> q_hash_code q = q_hash_code q'.
+Proof. exact Proofs.Quartet.quartet_hash_compat. Qed.
+Print Assumptions quartet_hash_compat.
 
-Theorem quartet_witness :
-  q_compare (mkQ 0 1 2 3) (mkQ 2 3 0 1) = QEquals /\
-  q_hash_equals (mkQ 0 1 2 3) (mkQ 2 3 0 1) = true /\
-  q_hash_code (mkQ 0 1 2 3) = 924577%N /\ q_hash_code (mkQ 2 3 0 1) = 953377%N.
-Proof. exact Proofs.Quartet.quartet_witness. Qed.
-Print Assumptions quartet_witness.
-
-(** consequence: a HashMap keyed by quartets misses a stored quartet presented the other way *)
-Theorem quartet_map_refuted :
-  let need := fun (_ : nat) (_ : N) => false in
-  let ops := [OPut (mkQ 0 1 2 3) 7%Z; OValue (mkQ 2 3 0 1)] in
-  (exists mf, run quartet Z q_hash_code q_hash_equals need (new_hashmap quartet Z 256) ops = Some ([RPut; RValue None], mf)) /\
-  fst (run_assoc quartet Z q_hash_equals [] ops) = [RPut; RValue (Some 7%Z)].
-Proof. exact Proofs.Quartet.quartet_map_refuted. Qed.
-Print Assumptions quartet_map_refuted.
-
-(** what remains true: the hash ignores the order inside each pair *)
+(** special case: the hash ignores the order inside each pair *)
 Theorem quartet_hash_compat_partial : forall a b c d,
     q_hash_code (mkQ a b c d) = q_hash_code (mkQ b a c d) /\
     q_hash_code (mkQ a b c d) = q_hash_code (mkQ a b d c).
 Proof. exact Proofs.Quartet.quartet_hash_compat_partial. Qed.
 Print Assumptions quartet_hash_compat_partial.
 
-(** the repair: with the second compare-exchange turned the right way
-    ("if i4 < i3 { i3, i4 = i4, i3 }", [q_hash_code_fixed], a 5-comparator sorting network)
-    HashEquals quartets always have the same HashCode.  This is a statement about the proposed
-    fix, not about the code as it is. *)
-Theorem quartet_hash_compat_fixed : forall q q',
-    q_hash_equals q q' = true -> q_hash_code_fixed q = q_hash_code_fixed q'.
-Proof. exact Proofs.Quartet.quartet_hash_compat_fixed. Qed.
-Print Assumptions quartet_hash_compat_fixed.
+(** the presentations that used to disagree (fixed in /repo), and the lookup that used to miss *)
+Example quartet_former_witness :
+  q_hash_equals (mkQ 0 1 2 3) (mkQ 2 3 0 1) = true /\
+  q_hash_code (mkQ 0 1 2 3) = q_hash_code (mkQ 2 3 0 1) /\
+  q_hash_code (mkQ 1 2 3 4) = q_hash_code (mkQ 3 4 1 2).
+Proof. exact Proofs.Quartet.quartet_former_witness. Qed.
+Print Assumptions quartet_former_witness.
+
+Example quartet_map_example :
+  let need := fun (_ : nat) (_ : N) => false in
+  let ops := [OPut (mkQ 0 1 2 3) 7%Z; OValue (mkQ 2 3 0 1)] in
+  exists mf, run quartet Z q_hash_code q_hash_equals need (new_hashmap quartet Z 256) ops = Some ([RPut; RValue (Some 7%Z)], mf).
+Proof. exact Proofs.Quartet.quartet_map_example. Qed.
+Print Assumptions quartet_map_example.
 
 (** Compare recognises the eight presentations of one quartet *)
 Theorem quartet_equals_presentations : forall a b c d,
